@@ -209,7 +209,7 @@ impl Check for C10 {
     }
     fn workloads(&mut self, tier: Tier, _seed: u64) -> Vec<(String, u64)> {
         let a = ALPHABET.len() as u64;
-        let mut w = vec![("len0".to_string(), 1), ("len1".to_string(), a), ("len2".to_string(), a * a), ("len3".to_string(), a * a * a), ("len4".to_string(), a.pow(4)), ("random-long".to_string(), if tier == Tier::Quick { 60_000 } else { 1_000_000 })];
+        let mut w = vec![("len0".to_string(), 1), ("len1".to_string(), a), ("len2".to_string(), a * a), ("len3".to_string(), a * a * a), ("len4".to_string(), a.pow(4)), ("random-long".to_string(), if tier == Tier::Quick { 200_000 } else { 4_000_000 })];
         if tier == Tier::Thorough {
             w.push(("len5".to_string(), a.pow(5)));
             w.push(("len6".to_string(), a.pow(6)));
